@@ -45,6 +45,7 @@ func init() {
 			ruleApplyOps(c, r, "")
 			ruleOpSiblings(c, r, "")
 			ruleCheckIDs(c, r, "")
+			ruleRawEOFFlag(c, r, "")
 			ruleXZReaderBounds(c, r)
 			t := getChunkTables(c, r, "")
 			ruleControlByte(c, r, t, "", true)
